@@ -126,6 +126,8 @@ func runC14(r *Report, rng *rand.Rand, thorough bool) {
 		vars = append(vars, variant{"c14_" + fw + "_strict", fw, false, true, security})
 		if fw == "chi" || fw == "gorilla" || fw == "stdhttp" {
 			vars = append(vars, variant{"c14_" + fw + "_ftl", fw, true, false, security})
+			// the flag is about the per-operation (router) middlewares; the strict chain keeps its one documented order under it
+			vars = append(vars, variant{"c14_" + fw + "_ftl_strict", fw, true, true, security})
 		}
 	}
 	for _, v := range vars {
@@ -307,5 +309,5 @@ func runC14(r *Report, rng *rand.Rand, thorough bool) {
 	}
 	cases.WriteTo(r)
 	r.Exhaustive = thorough
-	r.Rule = "generated servers for 7 frameworks x {plain, strict} (+ first-to-last flag variants for chi, gorilla, std-http) compiled and served in process; every operation shape (no parameters, path / query / header parameters, body, security) x 0-3 per-operation middlewares x every short-circuit position x 0-2 strict middlewares x every strict short-circuit position x both strict constructors of the net/http flavours (NewStrictHandler, NewStrictHandlerWithOptions) x (gin and the net/http flavours) one of the middlewares sending the response header itself before passing on x the observed request being the first, second or third served by the mounted handler (thorough: the whole product; quick: a third of the strict x per-operation combinations); trace of recording middlewares and stub handler compared with the model in Coq and with the documented order; non-trivial = at least one middleware installed"
+	r.Rule = "generated servers for 7 frameworks x {plain, strict} (+ first-to-last flag variants for chi, gorilla, std-http, plain and strict) compiled and served in process; every operation shape (no parameters, path / query / header parameters, body, security) x 0-3 per-operation middlewares x every short-circuit position x 0-2 strict middlewares x every strict short-circuit position x both strict constructors of the net/http flavours (NewStrictHandler, NewStrictHandlerWithOptions) x (gin and the net/http flavours) one of the middlewares sending the response header itself before passing on x the observed request being the first, second or third served by the mounted handler (thorough: the whole product; quick: a third of the strict x per-operation combinations); trace of recording middlewares and stub handler compared with the model in Coq and with the documented order; non-trivial = at least one middleware installed"
 }
